@@ -481,6 +481,11 @@ def check_c02(prog, rep, tier, cfg):
               "%s looks at a neighbouring token by raw index (get_token_type_for_index) instead of through the comment-skipping look-ahead: with a comment in between it decides about the "
               "word on the comment, a name spelled like a directive is re-typed as a keyword and lower-cased" % unrev, instance={"raw_peeks": sorted({short(c.body.npath) for c in peeks}), "reviewed": sorted(REVIEWED_RAW_PEEKS)})
     rep.floor("C02.p", "raw-index look-aheads in the parser", len(peeks), 1)
+    # C02.q — what is lexed is the file's own text: the per-worker read buffer is empty on every path on which a file's bytes are appended
+    # to it.  Bytes of a rejected predecessor left in the buffer (a UTF-16 BOM, say) make a well-formed file decode as something else,
+    # and what is written back does not scan to the tokens of what was in the file (shared with C18.c)
+    import orch as _orch2
+    _orch2.c18c(prog, rep, "C02.q")
     # C02.o — a character string is one token: a run of `#` character codes ends only where no `#` follows (shared with C13.k)
     _lx.c13k(prog, rep, "C02.o")
     # C02.m — what the user re-scans is the file pasfmt wrote: the formatted text reaches it through the encoder of the file's encoding
